@@ -372,7 +372,7 @@ void AspifTextOutput::rule(Head_t ht, const AtomSpan& head, Weight_t bound, cons
 		if (Potassco::weight(*it) < min) { min = Potassco::weight(*it); }
 		if (Potassco::weight(*it) > max) { max = Potassco::weight(*it); }
 	}
-	if (min == max) {
+	if (min == max && min > 0) { // weights of 0 (or invalid negative ones) are kept as a sum
 		data_->directives.resize(top);
 		bound = (bound + min-1)/min;
 		push(Body_t::Count).push(bound).push(static_cast<uint32_t>(size(lits)));
